@@ -27,6 +27,7 @@ From Coq Require Import List ZArith NArith Bool.
 From Astisub Require Import Kit.Base Kit.Str Kit.Scan Model.Dur Model.Ssa.
 From Coq Require Import Permutation.
 From Astisub Require Import Proofs.EolProofs Proofs.SsaFields Proofs.SsaText Proofs.SsaRows Proofs.SsaDoc Proofs.SsaInfo Proofs.SsaInfoOrder Proofs.SsaIgnore Proofs.SsaOrder Proofs.SsaRepr Proofs.SsaRead Proofs.SsaReadAny Proofs.SsaEvents Proofs.SsaWriteRender.
+From Astisub Require Import Proofs.SsaStyles Proofs.SsaRewrite Proofs.FuelSsa.
 Import ListNotations.
 
 (* ---- field codecs ---- *)
@@ -281,3 +282,97 @@ Proof. exact write_denotes_canon. Qed.
 Print Assumptions C04_write_denotes_agrees.
 Example C04_write_denotes_example : exists data, write_ssa ex_doc (style_keys ex_doc) = Ok data /\ read_ssa data = Ok (w_denotation ex_doc).
 Proof. exact (write_denotes ex_doc ex_doc_repr). Qed.
+
+(* ---- the second write is a fixpoint on the reader's image too (Proofs/SsaRewrite.v) ----
+   C04_rewrite starts from a document whose styles map is listed in sorted order (doc_repr); the reader lists the styles
+   in document order, so C04_rewrite did not apply to what the reader returns for an arbitrary rendering.
+   C04_reader_styles_map: what the reader's styles map is for ANY list of style rows: one entry per distinct name (a
+   repeated name overwrites in place), each under its own name, each one of the rows.
+   C04_rewrite_image: for every document representable up to the listing order of its styles map (image_repr = doc_repr
+   without sortedness) and every iteration order of the map at both writes: write, read, write again -> the same bytes.
+   C04_rewrite_rendered: for EVERY rendering covered by C04_read_rendered with at least one Dialogue row, representable
+   styles none of which is named *Default, and events whose values are in range, comma / break free, and whose text is
+   some rendering (each break spelled \N or \n) of representable lines: read, write what was read (any map order), read,
+   write again (any map order) -> the second write is byte-equal to the first.
+   C04_rewrite_needs_no_star_default_style: the condition on *Default is needed (computed: a style literally named
+   *Default referenced as **Default gives a second write with an empty Style cell), while the ordinary *-prefixed
+   reference is a fixpoint. *)
+Theorem C04_reader_styles_map : forall sts,
+  styles_map sts = named_styles (styles_list sts) /\ NoDup (map ay_name (styles_list sts)) /\
+  (forall st, In st (styles_list sts) -> In st sts).
+Proof. exact styles_map_named. Qed.
+Print Assumptions C04_reader_styles_map.
+Theorem C04_rewrite_image : forall d order, image_repr d -> Permutation order (style_keys d) ->
+  exists data d', write_ssa d order = Ok data /\ read_ssa data = Ok d' /\
+                  (forall order', Permutation order' (style_keys d') -> write_ssa d' order' = Ok data).
+Proof. exact rewrite_image. Qed.
+Print Assumptions C04_rewrite_image.
+Theorem C04_rewrite_rendered : forall hi b keys styles he fe erows scols ecols,
+  section_hdr true hi SInfo -> info_ok b -> (forall f, In f keys) ->
+  match styles with
+  | Some (hs, fs, srows) => section_hdr false hs SStyles /\ format_value fs scols /\ scols <> [] /\
+                            Forall (fun p : list str * astyle => style_row scols (fst p) (snd p)) srows
+  | None => True
+  end ->
+  section_hdr false he SEvents -> format_value fe ecols -> ecols <> [] ->
+  Forall (fun p : (list str * str) * aevent => event_row ecols (fst (fst p)) (snd (fst p)) (snd p)) erows ->
+  let sts := match styles with Some (_, _, srows) => map snd srows | None => [] end in
+  erows <> [] -> Forall style_repr sts -> ~ In n_star_default (map ay_name sts) ->
+  Forall event_image_ok (map snd erows) ->
+  exists d, read_ssa_lines (rendered_lines hi b keys styles he fe erows) false = Ok d /\
+    forall order, Permutation order (style_keys d) ->
+    exists data d', write_ssa d order = Ok data /\ read_ssa data = Ok d' /\
+                    (forall order', Permutation order' (style_keys d') -> write_ssa d' order' = Ok data).
+Proof. exact rewrite_rendered_events. Qed.
+Print Assumptions C04_rewrite_rendered.
+(* the item an event denotes is representable under conditions on the event alone *)
+Theorem C04_event_item_representable : forall ev m, event_image_ok ev -> ~ In [] (map fst m) -> ~ In n_star_default (map fst m) ->
+  item_repr (map fst m) (event_item ev m).
+Proof. exact event_item_repr. Qed.
+Print Assumptions C04_event_item_representable.
+Example C04_rewrite_needs_no_star_default_style :
+  ssa_differ (ssa_wr (read_ssa_lines sd_doc false)) (ssa_wr (ssa_rd (ssa_wr (read_ssa_lines sd_doc false)))) = true /\
+  ssa_differ (ssa_wr (read_ssa_lines ok_doc false)) (ssa_wr (ssa_rd (ssa_wr (read_ssa_lines ok_doc false)))) = false /\
+  (exists x, ssa_wr (read_ssa_lines ok_doc false) = Ok x).
+Proof. exact rewrite_needs_no_star_default_style. Qed.
+
+(* ---- the order argument of write_ssa ----
+   order stands for the order in which the Go runtime ranges over s.Styles: every key exactly once (order_ok).  The
+   statements above that hold "for all order" (C04_writer_total, C04_write_order_independent) cover these in particular;
+   every statement that names the bytes written carries the hypothesis (C04_write_read_any_order, C04_rewrite_any_order,
+   C04_rewrite_image, and the two below).  A list that does not enumerate the keys gives other bytes
+   (C04_order_must_enumerate_the_keys: the empty list drops the styles): no execution of WriteToSSA corresponds to it. *)
+Theorem C04_write_is_rendering_any_order : forall d order, doc_repr d -> order_ok d order ->
+  write_ssa d order =
+    Ok (render_eol [10%N] (spaced_lines n_script_info_hdr (canon_info d) all_fkeys (w_styles d) n_events_hdr (w_fe d) (w_erows d))).
+Proof. exact write_is_rendering_any_order. Qed.
+Print Assumptions C04_write_is_rendering_any_order.
+Theorem C04_write_denotes_any_order : forall d order, doc_repr d -> order_ok d order ->
+  exists data, write_ssa d order = Ok data /\ read_ssa data = Ok (w_denotation d).
+Proof. exact write_denotes_any_order. Qed.
+Print Assumptions C04_write_denotes_any_order.
+Example C04_order_must_enumerate_the_keys : ssa_differ (write_ssa ex_doc []) (write_ssa ex_doc (style_keys ex_doc)) = true.
+Proof. exact order_must_enumerate_the_keys. Qed.
+
+(* ---- fuel ----
+   The text theorems (C04_runs, C04_text_lines, C04_item) go through line_runs, i.e. through
+   segments s = seg_fuel (S (length s)) s [], a fuelled transcription of the scan for override blocks whose out-of-fuel
+   value looks like an ordinary result.  The fuel never runs out and the value does not depend on it: every larger fuel
+   gives the same result (seg_fuel_indep), and segments satisfies the fuel-free equations of the loop (seg_c_cons), each
+   recursive call on a strictly shorter string. *)
+Theorem C04_segments_fuel_independent : forall fuel s cur, (S (length s) <= fuel)%nat ->
+  seg_fuel fuel s cur = seg_fuel (S (length s)) s cur.
+Proof. exact seg_fuel_indep. Qed.
+Print Assumptions C04_segments_fuel_independent.
+Theorem C04_segments_equation : forall c r cur,
+  seg_c (c :: r) cur =
+  if (c =? LB)%N then
+    match match_block r with
+    | Some (blk, rest) => let (t, more) := seg_c rest [] in (rev cur, (blk, t) :: more)
+    | None => seg_c r (c :: cur)
+    end
+  else seg_c r (c :: cur).
+Proof. exact seg_c_cons. Qed.
+Print Assumptions C04_segments_equation.
+Theorem C04_segments_is_seg_c : forall s, segments s = seg_c s [].
+Proof. exact segments_c. Qed.
